@@ -991,7 +991,10 @@ class ArgumentParser(ParserDeprecations, ActionsContainer, ArgumentLinking, argp
 
             with change_to_path_dir(path_fc), parser_context(parent_parser=self):
                 save_paths(cfg)
-            dump_kwargs["skip_validation"] = True
+            # sub-files are only written below, so a config that refers to them cannot be validated while it is dumped; without
+            # sub-files the dump is the same strict one as in single-file mode (a lenient dump may serialize a value through the
+            # wrong member of a Union, e.g. merge the defaults of a dataclass member into a dict value)
+            dump_kwargs["skip_validation"] = skip_validation or bool(writes)
             writes.append((path_fc.absolute, self.dump(cfg, **dump_kwargs)))  # type: ignore[arg-type]
             for write_path, write_content in writes:
                 with open(write_path, "w") as f:
